@@ -383,6 +383,13 @@ func (d *daemon) serve(w http.ResponseWriter, r *http.Request) {
 	d.log = append(d.log, dreq{Method: r.Method, URI: r.RequestURI, Path: r.URL.Path, BodyLen: len(b), BodySHA: hex.EncodeToString(h[:6]), body: b})
 	st, body := d.status, d.body
 	d.mu.Unlock()
+	if strings.HasPrefix(r.URL.Path, echoPrefix) {
+		// answers with what was received (concurrent-relay section)
+		w.Header().Set("X-C12-Daemon", "1")
+		w.WriteHeader(200)
+		fmt.Fprintf(w, "%s %s %s", r.Method, r.RequestURI, hex.EncodeToString(h[:6]))
+		return
+	}
 	if strings.HasSuffix(r.URL.Path, abortMidwaySuffix) {
 		// a streamed answer (no Content-Length) that dies after its first half
 		w.Header().Set("X-C12-Daemon", "1")
@@ -420,6 +427,10 @@ func (d *daemon) take() ([]dreq, int) {
 // path no enumerated case uses, so that this one-off request is
 // recognisable at the daemon.
 const extractHeadersPath = "/c12/header-extraction"
+
+// echoPrefix: relayed paths beginning so are answered with an echo of the
+// request line and body hash.
+const echoPrefix = "/api/v0/c12echo/"
 
 // abortMidwaySuffix: relayed paths ending so make the daemon abort its answer
 // halfway through the body.
